@@ -3,6 +3,7 @@ package main
 import (
 	"fmt"
 	"go/ast"
+	"go/constant"
 	"go/token"
 	"go/types"
 	"strings"
@@ -780,6 +781,32 @@ func ruleR092(c *Ctx) {
 			inspectNoLit(body, func(x ast.Node) bool {
 				switch t := x.(type) {
 				case *ast.CallExpr:
+					// the builtin append on a ListMap (a slice of entries) is the same in-place update as ListMap.Append:
+					// it writes into the spare capacity of the backing array, which every map derived from the operand shares
+					if id, ok := ast.Unparen(t.Fun).(*ast.Ident); ok && id.Name == "append" && len(t.Args) >= 2 {
+						if _, isB := info.Uses[id].(*types.Builtin); isB && isNamed(info.TypeOf(t.Args[0]), modPath+"/listMap", "ListMap") {
+							a0 := ast.Unparen(t.Args[0])
+							capped := false
+							if se, ok := a0.(*ast.SliceExpr); ok && se.Slice3 && se.Max != nil && se.High != nil && nodeStr(c.Fset, se.Max) == nodeStr(c.Fset, se.High) {
+								capped = true
+							}
+							n++
+							key := fmt.Sprintf("%s#append-to-ListMap[%d]", c.FuncName(fn)+litSuffix(c, fn), ordinalIn(fn, t, func(y ast.Node) bool {
+								cc, ok := y.(*ast.CallExpr)
+								if !ok || len(cc.Args) < 2 {
+									return false
+								}
+								cid, ok := ast.Unparen(cc.Fun).(*ast.Ident)
+								return ok && cid.Name == "append" && isNamed(info.TypeOf(cc.Args[0]), modPath+"/listMap", "ListMap")
+							}))
+							if capped || c.privateListMap(pkg, fn, a0, lmNew, lmAppend, 0) {
+								c.OK(key, t.Pos(), "append to a ListMap this function created itself (or to a capacity limited view, which copies)")
+							} else {
+								c.Violation(key, t.Pos(), "append(%s, …) may write into the spare capacity of the entry slice of an existing map: every map that was derived from the same operand before shares that backing array and sees its last entries overwritten - an existing map value changes", nodeStr(c.Fset, a0))
+							}
+							return true
+						}
+					}
 					if !isCallTo(info, t, lmAppend) {
 						return true
 					}
@@ -1119,4 +1146,257 @@ func ruleR093(c *Ctx) {
 		return
 	}
 	c.OK("value#methods-of-language-values", token.NoPos, "%d methods of types implementing value.Value examined (value, value/export; *List has its own protocol): none appends to a slice field of its receiver or of a shallow copy of it without capping or cloning it (%d uncapped appends)", nMethods, nApp)
+}
+
+// ---------------------------------------------------------------------------
+// R09.4 a lazy list delivers the same sequence at every traversal
+//
+// A list that is not materialised yet runs its producer again for every
+// observation (string form, first, map, reduce, an exporter ...). The content
+// of a named list is then only stable if the producer is a function of the
+// captured state: Go randomises the order of every range over a map, so a
+// producer that ranges over a Go map delivers a different sequence each time,
+// and first() disagrees with [0].
+
+func ruleR094(c *Ctx) {
+	la := c.listAnchors()
+	if len(la.missing) > 0 {
+		c.Undecided(strings.Join(la.missing, ","), token.NoPos, "anchors not found")
+		return
+	}
+	n := 0
+	for _, pkg := range c.RepoPkgs {
+		info := pkg.TypesInfo
+		for _, f := range pkg.Syntax {
+			ast.Inspect(f, func(x ast.Node) bool {
+				call, ok := x.(*ast.CallExpr)
+				if !ok || !(isCallTo(info, call, la.newFromIterable) || isCallTo(info, call, la.newFromSizedIterable)) || len(call.Args) == 0 {
+					return true
+				}
+				fn := c.EnclosingFunc(call)
+				if fn == nil {
+					return true
+				}
+				if fd, ok := fn.(*ast.FuncDecl); ok && (fd.Name.Name == "NewListFromIterable" || fd.Name.Name == "NewListFromSizedIterable") {
+					return true
+				}
+				n++
+				key := fmt.Sprintf("%s#producer-order[%d]", c.FuncName(fn)+litSuffix(c, fn), ordinalIn(fn, call, func(y ast.Node) bool {
+					cc, ok := y.(*ast.CallExpr)
+					return ok && (isCallTo(info, cc, la.newFromIterable) || isCallTo(info, cc, la.newFromSizedIterable))
+				}))
+				// the code of the producer: the literal, or the declaration of the function that is handed over
+				var bodies []ast.Node
+				switch t := ast.Unparen(call.Args[0]).(type) {
+				case *ast.FuncLit:
+					bodies = append(bodies, t.Body)
+				default:
+					if obj := calleeOfExpr(info, t); obj != nil && obj.Pkg() == pkg.Types {
+						if fd := findFuncDecl(pkg, obj); fd != nil && fd.Body != nil {
+							bodies = append(bodies, fd.Body)
+						}
+					}
+				}
+				var bad ast.Node
+				what := ""
+				for _, b := range bodies {
+					ast.Inspect(b, func(y ast.Node) bool {
+						rs, ok := y.(*ast.RangeStmt)
+						if !ok || bad != nil {
+							return true
+						}
+						t := info.TypeOf(rs.X)
+						if t == nil {
+							return true
+						}
+						if _, isMap := t.Underlying().(*types.Map); isMap {
+							bad, what = rs, "the Go map "+nodeStr(c.Fset, rs.X)
+						}
+						if rc, ok := ast.Unparen(rs.X).(*ast.CallExpr); ok {
+							if cal := Callee(info, rc); cal != nil && cal.Pkg() != nil && cal.Pkg().Path() == "maps" {
+								bad, what = rs, "maps."+cal.Name()+" of a Go map"
+							}
+						}
+						return true
+					})
+				}
+				if bad == nil {
+					c.OK(key, call.Pos(), "the producer iterates no Go map: every traversal delivers the elements in the same order")
+				} else {
+					c.Violation(key, bad.Pos(), "the producer of a lazy list ranges over %s: Go randomises the order of every such range, and a list that is not materialised runs its producer again for every observation - the elements of a named list come in a different order each time it is looked at (string form, first, map, export), and first() disagrees with [0]", what)
+				}
+				return true
+			})
+		}
+	}
+	if n < 15 {
+		c.Undecided("value#lazy-list-constructions", token.NoPos, "only %d constructions of lazy lists found", n)
+	}
+}
+
+// calleeOfExpr resolves an expression that denotes a function (f, pkg.f, recv.m) to its object.
+func calleeOfExpr(info *types.Info, e ast.Expr) *types.Func {
+	switch t := ast.Unparen(e).(type) {
+	case *ast.Ident:
+		fn, _ := info.ObjectOf(t).(*types.Func)
+		return fn
+	case *ast.SelectorExpr:
+		fn, _ := info.ObjectOf(t.Sel).(*types.Func)
+		return fn
+	}
+	return nil
+}
+
+// ---------------------------------------------------------------------------
+// R09.5 a list has no state besides its materialisation cache
+//
+// *List is shared by pointer between every name that holds the list, between
+// evaluations (constants of a generated function) and between goroutines. The
+// only thing that may change in an existing list is the cache of its items,
+// which changes from "not there" to "there" and never changes the content. A
+// store into any other field of an existing list (a flag that says "being
+// printed", a cursor, a counter) is state that one observer leaves behind for
+// the next one: the observable content of a named value then depends on who
+// else looks at it.
+
+func ruleR095(c *Ctx) {
+	la := c.listAnchors()
+	if len(la.missing) > 0 {
+		c.Undecided(strings.Join(la.missing, ","), token.NoPos, "anchors not found")
+		return
+	}
+	vp := la.vp
+	isListExpr := func(info *types.Info, e ast.Expr) bool {
+		nm := namedOf(info.TypeOf(e))
+		return nm != nil && nm.Obj() == la.listType
+	}
+	type store struct {
+		pkg   *packages.Package
+		fn    ast.Node
+		stmt  ast.Stmt
+		sel   *ast.SelectorExpr
+		rhs   ast.Expr
+		field *types.Var
+	}
+	var stores []store
+	for _, pkg := range c.RepoPkgs {
+		info := pkg.TypesInfo
+		forEachFuncBody([]*packages.Package{pkg}, func(_ *packages.Package, fn ast.Node, body *ast.BlockStmt) {
+			inspectNoLit(body, func(x ast.Node) bool {
+				add := func(s ast.Stmt, l ast.Expr, rhs ast.Expr) {
+					// l.f, l.f[i], l.f.g ... : the outermost selector on a list
+					e := ast.Unparen(l)
+					for {
+						switch t := e.(type) {
+						case *ast.IndexExpr:
+							e = ast.Unparen(t.X)
+							continue
+						case *ast.StarExpr:
+							e = ast.Unparen(t.X)
+							continue
+						case *ast.SelectorExpr:
+							if isListExpr(info, t.X) {
+								if v, ok := info.ObjectOf(t.Sel).(*types.Var); ok && v.IsField() {
+									stores = append(stores, store{pkg, fn, s, t, rhs, v})
+								}
+								return
+							}
+							e = ast.Unparen(t.X)
+							continue
+						}
+						return
+					}
+				}
+				switch t := x.(type) {
+				case *ast.AssignStmt:
+					for i, l := range t.Lhs {
+						var rhs ast.Expr
+						if len(t.Rhs) == len(t.Lhs) {
+							rhs = t.Rhs[i]
+						}
+						add(t, l, rhs)
+					}
+				case *ast.IncDecStmt:
+					add(t, t.X, nil)
+				}
+				return true
+			})
+		})
+	}
+	// the cache: the fields stored by the method that sets the presence flag (a boolean field set to true)
+	cache := map[*types.Var]bool{}
+	materialiser := map[ast.Node]bool{}
+	// the materialising method stores the items (a slice of values) and sets a flag to true
+	setsFlag, storesItems := map[ast.Node]*types.Var{}, map[ast.Node]*types.Var{}
+	for _, s := range stores {
+		d := c.EnclosingDecl(s.stmt)
+		if s.rhs == nil || d == nil {
+			continue
+		}
+		if tv := s.pkg.TypesInfo.Types[s.rhs]; tv.Value != nil && tv.Value.Kind() == constant.Bool && constant.BoolVal(tv.Value) {
+			setsFlag[d] = s.field
+		}
+		if as, ok := s.stmt.(*ast.AssignStmt); ok && isValueSlice(s.field.Type()) && len(as.Lhs) == 1 && ast.Unparen(as.Lhs[0]) == ast.Expr(s.sel) {
+			if se, isSlice := ast.Unparen(s.rhs).(*ast.SliceExpr); !isSlice || nodeStr(c.Fset, se.X) != nodeStr(c.Fset, s.sel) {
+				storesItems[d] = s.field
+			}
+		}
+	}
+	for d, f := range setsFlag {
+		if it, ok := storesItems[d]; ok {
+			materialiser[d] = true
+			cache[f], cache[it] = true, true
+		}
+	}
+	if len(stores) < 3 || len(cache) == 0 {
+		c.Undecided("value.List#field-stores", token.NoPos, "only %d stores into fields of a list found, %d cache fields derived", len(stores), len(cache))
+		return
+	}
+	_ = vp
+	count := map[string]int{}
+	for _, s := range stores {
+		info := s.pkg.TypesInfo
+		base := c.FuncName(s.fn) + litSuffix(c, s.fn)
+		count[base+s.field.Name()]++
+		key := fmt.Sprintf("%s#list-field-store:%s[%d]", base, s.field.Name(), count[base+s.field.Name()])
+		// (i) a list this function has just created
+		if id, ok := ast.Unparen(s.sel.X).(*ast.Ident); ok {
+			if as, i := definingAssign(info, s.fn, info.ObjectOf(id)); as != nil && len(as.Rhs) == len(as.Lhs) {
+				r := ast.Unparen(as.Rhs[i])
+				if u, ok := r.(*ast.UnaryExpr); ok && u.Op == token.AND {
+					r = ast.Unparen(u.X)
+				}
+				if _, ok := r.(*ast.CompositeLit); ok && countAssignments(info, s.fn, info.ObjectOf(id)) == 1 {
+					c.OK(key, s.stmt.Pos(), "store into a list this function has just created")
+					continue
+				}
+			}
+		}
+		d := c.EnclosingDecl(s.stmt)
+		if cache[s.field] {
+			// (ii) the cache is filled by the materialising method, or re-sliced to itself (capacity trim)
+			whole := false
+			if as, ok := s.stmt.(*ast.AssignStmt); ok {
+				for _, l := range as.Lhs {
+					if ast.Unparen(l) == ast.Expr(s.sel) {
+						whole = true
+					}
+				}
+			}
+			if d != nil && materialiser[d] && whole {
+				c.OK(key, s.stmt.Pos(), "the materialising method fills the cache")
+				continue
+			}
+			if s.rhs != nil {
+				r := ast.Unparen(s.rhs)
+				if se, ok := r.(*ast.SliceExpr); ok && se.Low == nil && nodeStr(c.Fset, se.X) == nodeStr(c.Fset, s.sel) {
+					c.OK(key, s.stmt.Pos(), "the cache is re-sliced to itself (capacity trim), the elements stay")
+					continue
+				}
+			}
+			c.Violation(key, s.stmt.Pos(), "the cache field %s of an existing list is overwritten outside the method that materialises the list: the content of a list that other names, evaluations or goroutines hold changes", s.field.Name())
+			continue
+		}
+		c.Violation(key, s.stmt.Pos(), "a store into the field %s of an existing list: a *List is shared by pointer between all holders of the value, between evaluations and between goroutines, and its only mutable part is the cache of its items. State that one observer leaves in the list (a flag, a cursor, a counter) changes what the next or a concurrent observer sees of the same, unchanged value", s.field.Name())
+	}
 }
